@@ -730,6 +730,7 @@ impl THistory {
                 let kk = got.len();
                 if kk > sent.len() || &sent[kk - 1] != last {
                     self.violate("C20", format!("across the UDP stack the {} obtained message #{} of an ordered channel that is not the submitted one", side, kk));
+                    self.violate("C01", format!("across the UDP stack the {} obtained message #{} of an ordered channel that is not the submitted one", side, kk));
                 }
             }
             Some(2) => {
@@ -737,11 +738,13 @@ impl THistory {
                 let bq = sent.iter().filter(|m| *m == last).count();
                 if a > bq {
                     self.violate("C20", format!("across the UDP stack the {} obtained a reliable unordered message {} times, submitted {} times", side, a, bq));
+                    self.violate("C02", format!("across the UDP stack the {} obtained a reliable unordered message {} times, submitted {} times", side, a, bq));
                 }
             }
             _ => {
                 if !sent.iter().any(|m| m == last) {
                     self.violate("C20", format!("across the UDP stack the {} obtained an unreliable message that was never submitted", side));
+                    self.violate("C03", format!("across the UDP stack the {} obtained an unreliable message that was never submitted", side));
                 }
             }
         }
